@@ -53,6 +53,8 @@ def main():
     samples = []
     for r in recs:
         if not r["accepted"]:
+            if "/w" in r["config"] and "draw cap" in (r.get("init_error") or ""):
+                slow.append({"config": r["config"], "note": "initialisation shot cut by the draw cap"})
             if r["config"].startswith("bkg/"):
                 chk.violation(r["config"] + "|refused", "published background name refused: %s" % r.get("init_error"), {"config": r["config"]})
             continue
